@@ -160,8 +160,9 @@ def is_model_expr(an, e, f):
 
 
 # --------------------------------------------------------------------------- path facts
-def path_facts(path):
-    """{normalised atom text: bool} established by the branch edges of a CFG path."""
+def path_facts(path, expand=None):
+    """{normalised atom text: bool} established by the branch edges of a CFG path.  expand(test, node): rewrite the test first
+    (pure location aliases: `cur = self._parent; if cur is not None` is a fact about self._parent)."""
     facts = {}
 
     def add(test, val):
@@ -183,6 +184,11 @@ def path_facts(path):
     for node, edge in path:
         if node.kind == "branch" and edge in ("true", "false"):
             add(node.ast.test, edge == "true")
+            if expand is not None:
+                try:
+                    add(expand(node.ast.test, node), edge == "true")
+                except Exception:
+                    pass
     return facts
 
 
